@@ -3,6 +3,7 @@ package main
 import (
 	"go/token"
 	"go/types"
+	"sort"
 	"strings"
 
 	"golang.org/x/tools/go/ssa"
@@ -217,6 +218,7 @@ func calleesNeverFail(P *Prog, call ssa.CallInstruction) (bool, []string) {
 		}
 		names = append(names, stableName(callee))
 	}
+	sort.Strings(names)
 	return len(names) > 0, names
 }
 
